@@ -274,6 +274,9 @@ fn episode(ctx: &Ctx, f: Focus, case: u64, out: &mut Out) -> Result<(), (Fail, S
     let dir = fresh_dir(&ctx.scratch, &format!("c{}", case));
     let mut e = Eng::new(r, &dir, conf, thr, keys, big_ok);
     e.huge_ok = case % 8 == 5 && f != Focus::C19;
+    // an eighth of the episodes on a file system that completes some writes only partly (not those
+    // that arm a fault of their own)
+    let short = if case % 8 == 6 && case % 5 != 2 { Some(crate::shim::short_env(&dir, ctx.seed ^ case)) } else { None };
     let mut snapshots = 0u64;
     let mut snapshots_after_hint_rebuild = 0u64;
     let mut merged_since_reopen = false;
@@ -411,6 +414,10 @@ fn episode(ctx: &Ctx, f: Focus, case: u64, out: &mut Out) -> Result<(), (Fail, S
         Ok(())
     })();
     e.close();
+    if let Some(s) = short {
+        out.count("episodes_with_short_writes", 1);
+        out.count("short_writes", s.done());
+    }
     if f != Focus::C12 && f != Focus::C13 {
         out.evaluations += 1;
     }
